@@ -56,6 +56,34 @@ Theorem every_scan_confined : forall info sel fin c p q st' p',
 Proof. exact log_scans_confined. Qed.
 Print Assumptions every_scan_confined.
 
+(* ---- metric scripts (range / vector aggregations, quantile, topk; b-c08's planner model) ---------------
+   judged against the context window widened below to the enclosing 15-second storage boundary (win15:
+   lower bounds may start at the 15 s boundary at or before From; the roll-up read ends at the 15 s boundary
+   at or before To).  (a) without a label filter in front of the first parser: every read is bounded *)
+Theorem every_metric_scan_bounded : forall info s fin c p q st' p',
+  ctx_tables info c -> 0 <= c_from_ns c -> 0 <= c_to_ns c -> no_slf (stream_selector s) = true ->
+  plan_metric s fin = Some p -> process p c pst0 = Some (q, st', p') ->
+  Forall (scan_bounded info (win15 c)) (scans q).
+Proof. exact metric_scans_bounded. Qed.
+Print Assumptions every_metric_scan_bounded.
+
+(* (b) every metric script: bounded, or the fingerprint-restricted time_series read of a SimpleLabelFilterPlanner *)
+Theorem every_metric_scan_confined : forall info s fin c p q st' p',
+  ctx_tables info c -> 0 <= c_from_ns c -> 0 <= c_to_ns c ->
+  plan_metric s fin = Some p -> process p c pst0 = Some (q, st', p') ->
+  Forall (fun sc => scan_bounded info (win15 c) sc \/ fp_restricted sc) (scans q).
+Proof. exact metric_scans_confined. Qed.
+Print Assumptions every_metric_scan_confined.
+
+(* (c) a metric script that is not planned on the 15-second roll-up table is bounded by the context window
+   itself, without widening *)
+Theorem every_metric_scan_bounded_raw : forall info s fin c p q st' p',
+  ctx_tables info c -> analyze_m15 s = false -> no_slf (stream_selector s) = true ->
+  plan_metric s fin = Some p -> process p c pst0 = Some (q, st', p') ->
+  Forall (scan_bounded info (win c)) (scans q).
+Proof. exact metric_scans_bounded_raw. Qed.
+Print Assumptions every_metric_scan_bounded_raw.
+
 (* ---- FormatFromDate ------------------------------------------------------------------------------
    the index lower bound (UTC day of from - 30 min) is not after the stored day of any row at or after
    `from`, for every writer whose zone is not more than 30 minutes west of UTC *)
@@ -103,6 +131,14 @@ Example partial_guard_met :
   process plain_plan cluster_ctx pst0 = plain_result /\
   match plain_result with Some (q, _, _) => Nat.leb 3 (List.length (scans q)) | None => false end = true.
 Proof. exact plain_query_guard. Qed.
+Example metric_guards_met :
+  (analyze_m15 m15_query = true /\ no_slf (stream_selector m15_query) = true /\ plan_metric m15_query true = Some m15_plan /\
+   process m15_plan cluster_ctx pst0 = m15_result /\
+   match m15_result with Some (q, _, _) => Nat.leb 3 (List.length (scans q)) | None => false end = true) /\
+  (analyze_m15 raw_query = false /\ no_slf (stream_selector raw_query) = true /\ plan_metric raw_query true = Some raw_plan /\
+   process raw_plan std_ctx pst0 = raw_result /\
+   match raw_result with Some (q, _, _) => Nat.leb 3 (List.length (scans q)) | None => false end = true).
+Proof. exact metric_guards. Qed.
 Example tables_single_node : ctx_tables table_info std_ctx.
 Proof. exact std_ctx_tables. Qed.
 Example tables_cluster : ctx_tables table_info cluster_ctx.
